@@ -20,3 +20,7 @@ package tscommon
 //@   loop 1 invariant spec.remainingM(ms.messages) <= spec.remainingM(old(ms.messages))
 //@   loop 2 invariant forall s string :: inDom(old(ms.messages), s) ==> inDom(ms.messages, s)
 //@   loop 2 invariant spec.remainingM(ms.messages) < spec.remainingM(old(ms.messages))
+
+// callers reach this only behind annotations.IsRootUnwrap (exactly one field)
+//@ func RootUnwrapTSType(msg *protogen.Message) (r string)
+//@   requires bounds: len(msg.Fields) >= 1
